@@ -123,7 +123,13 @@ func c30BuildPool() (*c30PoolT, error) {
 			MaxBufferSize: 1 << 30, MaxBufferAgeMS: 24 * 3600 * 1000, Compression: "snappy",
 			FlushWorkers: 1, FlushQueueSize: 4, ShardCount: 2, DataPageVersion: "2.0",
 		}, n.backend, lg)
-		if n.duck, err = database.New(&database.Config{MemoryLimit: "256MB", ThreadCount: 1, MaxConnections: 2, LocalStorageRoot: n.dir}, lg); err != nil {
+		n.duck, err = database.New(&database.Config{MemoryLimit: "256MB", ThreadCount: 1, MaxConnections: 2, LocalStorageRoot: n.dir}, lg)
+		// database.New bounds its sandbox lock-down with a 5 s context; on an overloaded machine that is
+		// start-up latency, not the property: retry instead of failing the case.
+		for attempt := 0; err != nil && attempt < 7; attempt++ {
+			n.duck, err = database.New(&database.Config{MemoryLimit: "256MB", ThreadCount: 1, MaxConnections: 2, LocalStorageRoot: n.dir}, lg)
+		}
+		if err != nil {
 			return nil, fmt.Errorf("database.New: %w", err)
 		}
 		if _, err := n.duck.Exec(fmt.Sprintf("CREATE MACRO c30_whoami() AS '%s'", n.id)); err != nil {
